@@ -392,16 +392,18 @@ func checkQueueHierarchyForPlacement(path []string, create, hasDynamicPart bool,
 	}
 
 	if len(path) == 1 {
+		// a queue with children is a parent, also when the flag is not set in the configuration
+		isParent := queueConf.Parent || len(queueConf.Queues) > 0
 		if hasDynamicPart {
 			// the "fixed" rule is followed by other rules like tag, user, etc. (root.dev.<user>),
 			// which means that the "fixed" part must point to a parent
-			if queueConf.Parent {
+			if isParent {
 				return placementOK, lastQueueName
 			}
 
 			return errQueueNotLeaf, lastQueueName
 		}
-		if queueConf.Parent {
+		if isParent {
 			return errQueueNotLeaf, lastQueueName
 		}
 
